@@ -178,7 +178,7 @@ def kinds_of(ctx: Ctx, which: str):
     return c, pf, order, idx, pcall
 
 
-def check_track_sections(ctx: Ctx, r: Rule, which: str) -> dict:
+def check_track_sections(ctx: Ctx, r: Rule, which: str, strict: Any = True) -> dict:
     """from_chart_lines of one track class: own lines -> dispatcher (kinds as listed) -> per-kind builder -> own field."""
     c, pf, order, idx, pcall = kinds_of(ctx, which)
     cq = c.qual
@@ -193,7 +193,7 @@ def check_track_sections(ctx: Ctx, r: Rule, which: str) -> dict:
     if pcall is None or order is None:
         fail(r, ctx, pf, pf.node, "the section's lines are not handed to the dispatcher with a literal tuple of kinds")
         return out
-    if strip(dict(pcall.kwargs).get(parse_params[1])) != ("param", ps[1]):
+    if strict is True and strip(dict(pcall.kwargs).get(parse_params[1])) != ("param", ps[1]):
         fail(r, ctx, pf, pcall.node, f"the dispatcher must receive the section's own lines unchanged (every line, in order, "
                                      f"duplicates included); it receives {show(dict(pcall.kwargs).get(parse_params[1]))[:120]}")
     spf = ctx.summary(pf)
@@ -238,7 +238,16 @@ def check_track_sections(ctx: Ctx, r: Rule, which: str) -> dict:
             if not et_ok:
                 fail(r, ctx, f, ex[0].node, f"field {field} is declared {ft} but is filled with {et[1]} events")
             want_d = ("proj", PC, idx.get(pdq, -1))
-            if pdq not in idx or strip(bk.get(build_params[1])) != strip(want_d):
+            is_strict = strict is True or (strict == "bpm" and et[1].endswith(".BPMEvent"))
+            got_d = bk.get(build_params[1])
+            if not is_strict:
+                # order / multiplicity of the data is irrelevant for the calling property: accept any term derived from the
+                # right component of the kind-list helper
+                loose = ("proj", ("call", ("func", pf.qual), (), ANYP), idx.get(pdq, -1))
+                if pdq in idx and got_d is not None and any(match(loose, t) is not None for t in subterms(got_d)):
+                    out["fields"][field] = (et[1], bk.get(build_params[2]), val)
+                    continue
+            if pdq not in idx or strip(got_d) != strip(want_d):
                 fail(r, ctx, f, ex[0].node, f"field {field}: the {et[1].rsplit('.', 1)[-1]} builder must receive exactly the data the "
                                             f"dispatcher collected for {pdq.split('.', 1)[1]} from this section's own lines, in file order "
                                             f"(component {idx.get(pdq)} of the kind-list helper); it receives "
